@@ -35,4 +35,18 @@ def addMonthsExt (d : Date) : LagExt → Option Date
   | .fin q => some (addMonths d q)
   | .tdMax => none
 
+/-- `resolution_delta(date, (quantity, units), negative)` AS WRITTEN (date_utils.py:121-129), the unit being the caller's
+RAW string: only the exact string `"month"` goes to `add_months`; EVERY other string — `"months"`, `"quarter"`, `"year"`,
+`"week"`, `"day"`, `"days"`, anything — is day arithmetic with the unscaled quantity. `resolutionDelta` (two-constructor
+`ResUnit`) is this function on the output of `standardize_resolution`, which is how `aggregate` calls it; the library's other
+callers pass the raw `(±1, "days")`. -/
+def resolutionDeltaRaw (d : Date) (q : Int) (units : String) (negative : Bool := false) : Date :=
+  let q := if negative then -q else q
+  if units == "month" then addMonths d q else d.addDays q
+
+/-- the unit string `standardize_resolution` returns -/
+def ResUnit.name : ResUnit → String
+  | .month => "month"
+  | .day => "day"
+
 end Bermuda
